@@ -424,3 +424,446 @@ Proof.
   - apply Forall_forall. intros j Hj. apply Nat.ltb_lt. now apply Hc.
   - exact Hf.
 Qed.
+
+(* ================================================================================================ *)
+(* The mirror of solve_consecutive_ones / isC1P around reorder_sets: IF reorder_sets meets its contract on
+   duplicate-free families of (ascending) index tuples THEN both functions are correct on every matrix. *)
+From Coq Require Import Sorted.
+
+Lemma lnat_eqb_eq a b : lnat_eqb a b = true <-> a = b.
+Proof.
+  revert b. induction a as [|x a IH]; intros [|y b]; simpl; split; try discriminate; auto.
+  - rewrite andb_true_iff, Nat.eqb_eq, IH. intros [-> ->]. reflexivity.
+  - intros [= -> ->]. rewrite Nat.eqb_refl. simpl. now apply IH.
+Qed.
+
+Lemma lnat_eqb_refl a : lnat_eqb a a = true.
+Proof. now apply lnat_eqb_eq. Qed.
+
+Lemma lnat_eqb_neq a b : lnat_eqb a b = false <-> a <> b.
+Proof. rewrite <- lnat_eqb_eq. destruct (lnat_eqb a b); split; congruence. Qed.
+
+Lemma lnat_eqb_sym a b : lnat_eqb a b = lnat_eqb b a.
+Proof.
+  destruct (lnat_eqb b a) eqn:E.
+  - apply lnat_eqb_eq in E. subst. apply lnat_eqb_refl.
+  - apply lnat_eqb_neq. apply lnat_eqb_neq in E. congruence.
+Qed.
+
+(* ---- subsequences keep intervals ---- *)
+Inductive sublist {T} : list T -> list T -> Prop :=
+| sl_nil : sublist [] []
+| sl_skip x l' l : sublist l' l -> sublist l' (x :: l)
+| sl_keep x l' l : sublist l' l -> sublist (x :: l') (x :: l).
+
+Lemma sublist_nil_l {T} (l : list T) : sublist [] l.
+Proof. induction l; constructor; auto. Qed.
+
+Lemma sublist_app_inv {T} (a b l' : list T) :
+  sublist l' (a ++ b) -> exists a' b', l' = a' ++ b' /\ sublist a' a /\ sublist b' b.
+Proof.
+  revert l'. induction a as [|x a IH]; intros l' H; simpl in H.
+  - exists [], l'. repeat split; [constructor|exact H].
+  - inversion H as [|? ? ? H'|? l0 ? H']; subst.
+    + destruct (IH _ H') as (a' & b' & -> & Ha & Hb). exists a', b'. repeat split; auto. now constructor.
+    + destruct (IH _ H') as (a' & b' & -> & Ha & Hb). exists (x :: a'), b'. repeat split; auto. now constructor.
+Qed.
+
+Lemma sublist_Forall {T} (P : T -> Prop) l' l : sublist l' l -> Forall P l -> Forall P l'.
+Proof.
+  induction 1; intros HF; auto.
+  - inversion HF; subst. auto.
+  - inversion HF; subst. constructor; auto.
+Qed.
+
+Lemma Interval_sublist {T} (P : T -> Prop) l' l : sublist l' l -> Interval P l -> Interval P l'.
+Proof.
+  intros Hs (l1 & l2 & l3 & -> & H1 & H2 & H3).
+  apply sublist_app_inv in Hs. destruct Hs as (a1 & r & -> & Ha1 & Hr).
+  apply sublist_app_inv in Hr. destruct Hr as (a2 & a3 & -> & Ha2 & Ha3).
+  exists a1, a2, a3. repeat split; eauto using sublist_Forall.
+Qed.
+
+Lemma sublist_nodup {T} (dec : forall x y : T, {x = y} + {x <> y}) l : sublist (nodup dec l) l.
+Proof.
+  induction l as [|x t IH]; simpl; [constructor|]. destruct (in_dec dec x t); now constructor.
+Qed.
+
+Lemma Interval_ext {T} (P Q : T -> Prop) l : (forall x, In x l -> (P x <-> Q x)) -> Interval P l -> Interval Q l.
+Proof.
+  intros Hext (l1 & l2 & l3 & -> & H1 & H2 & H3). exists l1, l2, l3. split; [reflexivity|].
+  rewrite !Forall_forall in *.
+  repeat split; intros x Hx.
+  - intros HQ. apply (H1 x Hx). apply Hext; [apply in_or_app; now left|exact HQ].
+  - apply Hext; [apply in_or_app; right; apply in_or_app; now left|now apply H2].
+  - intros HQ. apply (H3 x Hx). apply Hext; [apply in_or_app; right; apply in_or_app; now right|exact HQ].
+Qed.
+
+Lemma Interval_map {T U} (f : T -> U) (P : U -> Prop) l :
+  Interval (fun x => P (f x)) l <-> Interval P (map f l).
+Proof.
+  split.
+  - intros (l1 & l2 & l3 & -> & H1 & H2 & H3). exists (map f l1), (map f l2), (map f l3).
+    rewrite !map_app, !Forall_map. auto.
+  - intros (m1 & m2 & m3 & E & H1 & H2 & H3).
+    apply map_eq_app in E. destruct E as (l1 & r & -> & <- & E).
+    apply map_eq_app in E. destruct E as (l2 & l3 & -> & <- & <-).
+    rewrite !Forall_map in *. exists l1, l2, l3. auto.
+Qed.
+
+Lemma Interval_flat_map {T U} (g : T -> list U) (P : T -> Prop) (Q : U -> Prop) res :
+  (forall k x, In k res -> In x (g k) -> (Q x <-> P k)) ->
+  Interval P res -> Interval Q (flat_map g res).
+Proof.
+  intros Hg (l1 & l2 & l3 & -> & H1 & H2 & H3).
+  exists (flat_map g l1), (flat_map g l2), (flat_map g l3). rewrite !flat_map_app. split; [reflexivity|].
+  rewrite !Forall_forall in *.
+  repeat split; intros x Hx; apply in_flat_map in Hx; destruct Hx as (k & Hk & Hx).
+  - intros HQ. apply (H1 k Hk). apply (Hg k x); auto. apply in_or_app. now left.
+  - apply (Hg k x); auto. apply in_or_app. right. apply in_or_app. now left.
+  - intros HQ. apply (H3 k Hk). apply (Hg k x); auto. apply in_or_app. right. apply in_or_app. now right.
+Qed.
+
+(* ---- column sets ---- *)
+Lemma col_set_In rows j i :
+  In i (col_set rows j) <-> i < length rows /\ pick (nth i rows []) j = true.
+Proof.
+  unfold col_set. rewrite filter_In, in_seq. split; intros [H1 H2]; split; auto; lia.
+Qed.
+
+Lemma seq_sorted a n : StronglySorted lt (seq a n).
+Proof.
+  revert a. induction n as [|n IH]; intros a; simpl; constructor; [apply IH|].
+  apply Forall_forall. intros x Hx. apply in_seq in Hx. lia.
+Qed.
+
+Lemma filter_sorted (f : nat -> bool) l : StronglySorted lt l -> StronglySorted lt (filter f l).
+Proof.
+  induction 1 as [|x t Hs IH Hall]; simpl; [constructor|]. destruct (f x); [|exact IH].
+  constructor; [exact IH|]. rewrite Forall_forall in *. intros y Hy. apply filter_In in Hy. now apply Hall.
+Qed.
+
+Lemma col_set_sorted rows j : StronglySorted lt (col_set rows j).
+Proof. apply filter_sorted, seq_sorted. Qed.
+
+(* all rows contiguous in the column order perm  <->  for every row index v, the columns whose set contains v are
+   consecutive in perm *)
+Lemma rows_contig_sets rows perm :
+  Forall (fun row => row_contig perm row = true) rows <->
+  forall v, Interval (fun j => In v (col_set rows j)) perm.
+Proof.
+  split.
+  - intros H v. destruct (Nat.lt_ge_cases v (length rows)) as [Hv|Hv].
+    + rewrite Forall_forall in H. specialize (H (nth v rows []) (nth_In _ _ Hv)).
+      apply row_contig_spec in H. unfold RowContig in H.
+      eapply Interval_ext; [|exact H]. intros j _. rewrite col_set_In. unfold pick. tauto.
+    + exists perm, [], []. rewrite app_nil_r. repeat split; try constructor.
+      apply Forall_forall. intros j _ Hin. apply col_set_In in Hin. lia.
+  - intros H. apply Forall_forall. intros row Hrow.
+    destruct (In_nth _ _ [] Hrow) as (v & Hv & <-). apply row_contig_spec. unfold RowContig.
+    eapply Interval_ext; [|exact (H v)]. intros j _. rewrite col_set_In. unfold pick. tauto.
+Qed.
+
+(* ---- the contract of reorder_sets ---- *)
+(* res rearranges the family F and, for every element v, the sets containing v are consecutive in res *)
+Definition SetsOK (F res : list (list nat)) : Prop :=
+  Permutation F res /\ forall v, Interval (fun s => In v s) res.
+
+(* reorder_sets on a duplicate-free family of ascending index tuples: an arrangement when it answers, and
+   ValueError (None) only when no arrangement exists *)
+Definition reorder_contract (reorder : list (list nat) -> option (list (list nat))) : Prop :=
+  forall F, NoDup F -> Forall (StronglySorted lt) F ->
+    match reorder F with
+    | Some res => SetsOK F res
+    | None => forall res, ~ SetsOK F res
+    end.
+
+(* F = the distinct column sets of the matrix *)
+Definition family_of (rows : matrix) (nc : nat) (F : list (list nat)) : Prop :=
+  NoDup F /\ forall k, In k F <-> exists j, j < nc /\ col_set rows j = k.
+
+Definition cols_of (rows : matrix) (nc : nat) (k : list nat) : list nat :=
+  filter (fun j => lnat_eqb (col_set rows j) k) (seq 0 nc).
+
+Lemma filter_partition_perm {T} (p : T -> bool) l :
+  Permutation l (filter p l ++ filter (fun x => negb (p x)) l).
+Proof.
+  induction l as [|x t IH]; simpl; [constructor|]. destruct (p x); simpl.
+  - now constructor.
+  - apply Permutation_cons_app. exact IH.
+Qed.
+
+Lemma flat_map_ext_in {T U} (f g : T -> list U) l :
+  (forall x, In x l -> f x = g x) -> flat_map f l = flat_map g l.
+Proof.
+  induction l as [|x t IH]; intros H; simpl; [reflexivity|].
+  rewrite (H x (or_introl eq_refl)), IH; [reflexivity|]. intros y Hy. apply H. now right.
+Qed.
+
+Lemma filter_filter {T} (p q : T -> bool) l : filter p (filter q l) = filter (fun x => p x && q x) l.
+Proof.
+  induction l as [|x t IH]; simpl; [reflexivity|]. destruct (q x); simpl; rewrite ?andb_true_r, ?andb_false_r.
+  - destruct (p x); now rewrite IH.
+  - exact IH.
+Qed.
+
+Lemma group_perm (f : nat -> list nat) F : forall l,
+  NoDup F -> (forall x, In x l -> In (f x) F) ->
+  Permutation l (flat_map (fun k => filter (fun x => lnat_eqb (f x) k) l) F).
+Proof.
+  induction F as [|k F' IH]; intros l Hnd Hin.
+  - destruct l as [|x t]; [constructor|]. destruct (Hin x (or_introl eq_refl)).
+  - inversion Hnd as [|? ? Hk Hnd']; subst. simpl.
+    set (l' := filter (fun x => negb (lnat_eqb (f x) k)) l).
+    transitivity (filter (fun x => lnat_eqb (f x) k) l ++ l'); [apply filter_partition_perm|].
+    apply Permutation_app_head.
+    assert (Hl' : forall x, In x l' -> In (f x) F').
+    { intros x Hx. apply filter_In in Hx. destruct Hx as [Hx Hne]. apply negb_true_iff, lnat_eqb_neq in Hne.
+      destruct (Hin x Hx) as [E|E]; [congruence|exact E]. }
+    rewrite (IH l' Hnd' Hl') at 1. apply Permutation_refl'.
+    apply flat_map_ext_in. intros k' Hk'. unfold l'. rewrite filter_filter.
+    apply filter_ext. intros x. destruct (lnat_eqb (f x) k') eqn:E1; [|reflexivity].
+    apply lnat_eqb_eq in E1. destruct (lnat_eqb (f x) k) eqn:E2; [|reflexivity].
+    apply lnat_eqb_eq in E2. congruence.
+Qed.
+
+(* an arrangement of the column sets yields a column order accepted by the C1P checker ... *)
+Lemma family_witness rows nc F res :
+  family_of rows nc F -> SetsOK F res ->
+  c1p_check rows nc (flat_map (cols_of rows nc) res) = true.
+Proof.
+  intros [Hnd HF] [HP Hint]. apply c1p_check_correct. split.
+  - unfold cols_of. apply (group_perm (col_set rows) res).
+    + eapply Permutation_NoDup; eassumption.
+    + intros j Hj. apply in_seq in Hj. eapply Permutation_in; [exact HP|]. apply HF. exists j. split; [lia|reflexivity].
+  - apply rows_contig_sets. intros v.
+    apply (Interval_flat_map (cols_of rows nc) (fun s => In v s) (fun j => In v (col_set rows j)) res); [|apply Hint].
+    intros k j _ Hj. unfold cols_of in Hj. apply filter_In in Hj. destruct Hj as [_ E].
+    apply lnat_eqb_eq in E. now rewrite E.
+Qed.
+
+(* ... and a column order with all rows contiguous yields an arrangement of the column sets *)
+Lemma family_arrangement rows nc F :
+  family_of rows nc F -> C1P rows nc -> exists res, SetsOK F res.
+Proof.
+  intros [Hnd HF] (perm & HP & Hrows).
+  set (dec := list_eq_dec Nat.eq_dec).
+  exists (nodup dec (map (col_set rows) perm)). split.
+  - apply NoDup_Permutation; [exact Hnd|apply NoDup_nodup|].
+    intros k. rewrite nodup_In, in_map_iff, HF. split.
+    + intros (j & Hj & E). exists j. split; [exact E|]. eapply Permutation_in; [exact HP|]. apply in_seq. lia.
+    + intros (j & E & Hj). exists j. split; [|exact E].
+      apply (Permutation_in _ (Permutation_sym HP)) in Hj. apply in_seq in Hj. lia.
+  - intros v. apply (Interval_sublist _ _ _ (sublist_nodup dec _)).
+    apply (Interval_map (col_set rows) (fun s => In v s)).
+    apply rows_contig_sets. exact Hrows.
+Qed.
+
+Lemma family_sorted rows nc F : family_of rows nc F -> Forall (StronglySorted lt) F.
+Proof.
+  intros [_ HF]. apply Forall_forall. intros k Hk. apply HF in Hk. destruct Hk as (j & _ & <-).
+  apply col_set_sorted.
+Qed.
+
+(* ---- the grouping dictionary ---- *)
+Lemma group_get_add k j g k' :
+  group_get k' (add_col k j g) = if lnat_eqb k' k then group_get k' g ++ [j] else group_get k' g.
+Proof.
+  induction g as [|[k0 cs] t IH]; simpl.
+  - destruct (lnat_eqb k' k); reflexivity.
+  - destruct (lnat_eqb k k0) eqn:E0; simpl.
+    + apply lnat_eqb_eq in E0. subst k0. destruct (lnat_eqb k' k); reflexivity.
+    + rewrite IH. destruct (lnat_eqb k' k0) eqn:E1; [|reflexivity].
+      destruct (lnat_eqb k' k) eqn:E2; [|reflexivity].
+      apply lnat_eqb_eq in E1. apply lnat_eqb_eq in E2. subst. rewrite lnat_eqb_refl in E0. discriminate.
+Qed.
+
+Lemma keys_add k j g k' : In k' (map fst (add_col k j g)) <-> k' = k \/ In k' (map fst g).
+Proof.
+  induction g as [|[k0 cs] t IH]; simpl.
+  - intuition.
+  - destruct (lnat_eqb k k0) eqn:E0; simpl.
+    + apply lnat_eqb_eq in E0. subst k0. intuition.
+    + rewrite IH. intuition.
+Qed.
+
+Lemma keys_add_NoDup k j g : NoDup (map fst g) -> NoDup (map fst (add_col k j g)).
+Proof.
+  induction g as [|[k0 cs] t IH]; simpl; intros H.
+  - constructor; [intros []|constructor].
+  - inversion H as [|? ? Hk0 Ht]; subst. destruct (lnat_eqb k k0) eqn:E0; simpl.
+    + now constructor.
+    + constructor; [|now apply IH]. rewrite keys_add. intros [E|Hin]; [|contradiction].
+      subst. rewrite lnat_eqb_refl in E0. discriminate.
+Qed.
+
+Definition group_inv (rows : matrix) (done : list nat) (g : list (list nat * list nat)) : Prop :=
+  NoDup (map fst g) /\
+  (forall k, In k (map fst g) <-> exists j, In j done /\ col_set rows j = k) /\
+  (forall k, group_get k g = filter (fun j => lnat_eqb (col_set rows j) k) done).
+
+Lemma group_fold rows l : forall done g,
+  group_inv rows done g ->
+  group_inv rows (done ++ l) (fold_left (fun g j => add_col (col_set rows j) j g) l g).
+Proof.
+  induction l as [|j l IH]; intros done g Hinv; simpl.
+  - now rewrite app_nil_r.
+  - replace (done ++ j :: l) with ((done ++ [j]) ++ l) by (rewrite <- app_assoc; reflexivity).
+    apply IH. destruct Hinv as (H1 & H2 & H3). split; [|split].
+    + now apply keys_add_NoDup.
+    + intros k. rewrite keys_add, H2. split.
+      * intros [->|(j' & Hj' & E)]; [exists j|exists j']; (split; [|auto]); apply in_or_app; simpl; auto.
+      * intros (j' & Hj' & E). apply in_app_or in Hj'. destruct Hj' as [Hj'|[<-|[]]]; [right; eauto|left; auto].
+    + intros k. rewrite group_get_add, H3, filter_app. simpl. rewrite (lnat_eqb_sym k).
+      destruct (lnat_eqb (col_set rows j) k); [reflexivity|now rewrite app_nil_r].
+Qed.
+
+Lemma group_cols_spec rows nc :
+  family_of rows nc (map fst (group_cols rows nc)) /\
+  forall k, group_get k (group_cols rows nc) = cols_of rows nc k.
+Proof.
+  assert (H0 : group_inv rows [] []).
+  { split; [constructor|split]; [|reflexivity]. intros k. simpl. split; [tauto|]. intros (j & [] & _). }
+  pose proof (group_fold rows (seq 0 nc) [] [] H0) as (H1 & H2 & H3). simpl in *.
+  split; [split; [exact H1|]|exact H3].
+  intros k. rewrite H2. split; intros (j & Hj & E); exists j; (split; [|exact E]).
+  - apply in_seq in Hj. lia.
+  - apply in_seq. lia.
+Qed.
+
+(* ---- isC1P's duplicate removal ---- *)
+Lemma memk_iff k l : memk k l = true <-> In k l.
+Proof.
+  unfold memk. rewrite existsb_exists. split.
+  - intros (x & Hx & E). apply lnat_eqb_eq in E. now subst.
+  - intros H. exists k. split; [exact H|apply lnat_eqb_refl].
+Qed.
+
+Lemma dedup_fold l : forall acc, NoDup acc ->
+  NoDup (fold_left (fun acc s => if memk s acc then acc else acc ++ [s]) l acc) /\
+  forall k, In k (fold_left (fun acc s => if memk s acc then acc else acc ++ [s]) l acc) <-> In k acc \/ In k l.
+Proof.
+  induction l as [|s l IH]; intros acc Hnd; simpl.
+  - split; [exact Hnd|]. intros k. tauto.
+  - destruct (memk s acc) eqn:E.
+    + destruct (IH acc Hnd) as [H1 H2]. split; [exact H1|]. intros k. rewrite H2.
+      apply memk_iff in E. split; [tauto|]. intros [H|[<-|H]]; auto.
+    + assert (Hnd' : NoDup (acc ++ [s])).
+      { apply (Permutation_NoDup (Permutation_cons_append acc s)). constructor; [|exact Hnd].
+        intros Hin. apply memk_iff in Hin. congruence. }
+      destruct (IH (acc ++ [s]) Hnd') as [H1 H2]. split; [exact H1|]. intros k. rewrite H2, in_app_iff. simpl. tauto.
+Qed.
+
+Lemma dedup_sets_family rows nc : family_of rows nc (dedup_sets (map (col_set rows) (seq 0 nc))).
+Proof.
+  unfold dedup_sets. destruct (dedup_fold (map (col_set rows) (seq 0 nc)) [] (NoDup_nil _)) as [H1 H2].
+  split; [exact H1|]. intros k. rewrite H2, in_map_iff. simpl. split.
+  - intros [[]|(j & E & Hj)]. exists j. apply in_seq in Hj. split; [lia|exact E].
+  - intros (j & Hj & E). right. exists j. split; [exact E|apply in_seq; lia].
+Qed.
+
+(* ---- main results: relative to the contract of reorder_sets, both functions are correct on every matrix
+   (repeated and all-zero rows and columns included; no hypothesis on the rows) ---- *)
+Section SolverMirrorCorrect.
+Variable reorder : list (list nat) -> option (list (list nat)).
+Hypothesis contract : reorder_contract reorder.
+
+Theorem solve_model_correct rows nc :
+  match solve_model reorder rows nc with
+  | Some perm => c1p_check rows nc perm = true
+  | None => c1p_decide rows nc = false
+  end.
+Proof.
+  unfold solve_model. destruct (group_cols_spec rows nc) as [Hfam Hget].
+  pose proof (contract _ (proj1 Hfam) (family_sorted _ _ _ Hfam)) as Hc.
+  destruct (reorder (map fst (group_cols rows nc))) as [res|].
+  - rewrite (flat_map_ext_in _ (cols_of rows nc)) by (intros k _; apply Hget).
+    now apply (family_witness rows nc _ res Hfam).
+  - destruct (c1p_decide rows nc) eqn:E; [|reflexivity]. apply c1p_decide_correct in E.
+    destruct (family_arrangement rows nc _ Hfam E) as (res & Hres). destruct (Hc res Hres).
+Qed.
+
+Theorem isC1P_model_correct rows nc : isC1P_model reorder rows nc = c1p_decide rows nc.
+Proof.
+  unfold isC1P_model. pose proof (dedup_sets_family rows nc) as Hfam.
+  pose proof (contract _ (proj1 Hfam) (family_sorted _ _ _ Hfam)) as Hc.
+  destruct (reorder (dedup_sets (map (col_set rows) (seq 0 nc)))) as [res|].
+  - symmetry. apply (c1p_check_decide rows nc (flat_map (cols_of rows nc) res)).
+    now apply (family_witness rows nc _ res Hfam).
+  - destruct (c1p_decide rows nc) eqn:E; [|reflexivity]. apply c1p_decide_correct in E.
+    destruct (family_arrangement rows nc _ Hfam E) as (res & Hres). destruct (Hc res Hres).
+Qed.
+End SolverMirrorCorrect.
+
+(* ---- the contract as a checker and a reference decider (used by the direct contract test of reorder_sets) ---- *)
+Lemma countk_count_occ k l : countk k l = count_occ (list_eq_dec Nat.eq_dec) l k.
+Proof.
+  unfold countk. induction l as [|x t IH]; simpl; [reflexivity|].
+  destruct (list_eq_dec Nat.eq_dec x k) as [->|Hne].
+  - rewrite lnat_eqb_refl. simpl. now rewrite IH.
+  - destruct (lnat_eqb k x) eqn:E; [apply lnat_eqb_eq in E; congruence|exact IH].
+Qed.
+
+Theorem sets_check_correct F res : sets_check F res = true <-> SetsOK F res.
+Proof.
+  unfold sets_check, SetsOK. rewrite andb_true_iff, !forallb_forall.
+  rewrite (Permutation_count_occ (list_eq_dec Nat.eq_dec)). split.
+  - intros [Hc Hi]. assert (HP : forall x, count_occ (list_eq_dec Nat.eq_dec) F x = count_occ (list_eq_dec Nat.eq_dec) res x).
+    { intros x. destruct (in_dec (list_eq_dec Nat.eq_dec) x (F ++ res)) as [Hin|Hnin].
+      - specialize (Hc x Hin). apply Nat.eqb_eq in Hc. now rewrite <- !countk_count_occ.
+      - assert (H1 : ~ In x F) by (intros H1; apply Hnin, in_or_app; now left).
+        assert (H2 : ~ In x res) by (intros H2; apply Hnin, in_or_app; now right).
+        apply (count_occ_not_In (list_eq_dec Nat.eq_dec)) in H1.
+        apply (count_occ_not_In (list_eq_dec Nat.eq_dec)) in H2. congruence. }
+    split; [exact HP|]. intros v.
+    destruct (in_dec Nat.eq_dec v (concat F)) as [Hv|Hv].
+    + apply (contig01_map (memn v) (fun s => In v s) (fun s => memn_iff v s)). now apply Hi.
+    + exists res, [], []. rewrite app_nil_r. repeat split; try constructor.
+      apply Forall_forall. intros s Hs Hvs. apply Hv. apply in_concat. exists s. split; [|exact Hvs].
+      apply (Permutation_count_occ (list_eq_dec Nat.eq_dec)) in HP.
+      eapply Permutation_in; [apply Permutation_sym; exact HP|exact Hs].
+  - intros [HP Hi]. split.
+    + intros x _. apply Nat.eqb_eq. rewrite !countk_count_occ. apply HP.
+    + intros v _. apply (contig01_map (memn v) (fun s => In v s) (fun s => memn_iff v s)). apply Hi.
+Qed.
+
+Theorem sets_decide_correct F : sets_decide F = true <-> exists res, SetsOK F res.
+Proof.
+  unfold sets_decide. rewrite (exists_perm_dec _ (SetsOK F) _ (sets_check_correct F)).
+  split; intros (r & H); exists r; [apply H|split; [apply H|exact H]].
+Qed.
+
+Lemma ref_reorder_contract : reorder_contract (fun F => find (sets_check F) (perms F)).
+Proof.
+  intros F _ _. destruct (find (sets_check F) (perms F)) as [res|] eqn:E.
+  - apply find_some in E. now apply sets_check_correct.
+  - intros res Hres. assert (Hin : In res (perms F)) by (apply perms_iff; apply Hres).
+    apply sets_check_correct in Hres. now rewrite (find_none _ _ E res Hin) in Hres.
+Qed.
+
+(* reorder_sets returns families of at most two sets unchanged: any such arrangement is fine, so the contract
+   only concerns the PQ-tree on families of at least three sets *)
+Lemma small_family_ok F : length F <= 2 -> SetsOK F F.
+Proof.
+  intros Hlen. split; [reflexivity|]. intros v.
+  destruct F as [|a [|b [|c r]]]; [| | |simpl in Hlen; lia].
+  - exists [], [], []. repeat split; constructor.
+  - destruct (in_dec Nat.eq_dec v a) as [Ha|Ha].
+    + exists [], [a], []. repeat split; repeat constructor; auto.
+    + exists [a], [], []. repeat split; repeat constructor; auto.
+  - destruct (in_dec Nat.eq_dec v a) as [Ha|Ha]; destruct (in_dec Nat.eq_dec v b) as [Hb|Hb].
+    + exists [], [a; b], []. repeat split; repeat constructor; auto.
+    + exists [], [a], [b]. repeat split; repeat constructor; auto.
+    + exists [a], [b], []. repeat split; repeat constructor; auto.
+    + exists [a; b], [], []. repeat split; repeat constructor; auto.
+Qed.
+
+Theorem reorder_sets_model_contract pq_tree :
+  (forall F, 3 <= length F -> NoDup F -> Forall (StronglySorted lt) F ->
+     match pq_tree F with Some res => SetsOK F res | None => forall res, ~ SetsOK F res end) ->
+  reorder_contract (reorder_sets_model pq_tree).
+Proof.
+  intros H F Hnd Hs. unfold reorder_sets_model. destruct (Nat.leb_spec (length F) 2) as [Hl|Hl].
+  - now apply small_family_ok.
+  - apply H; auto.
+Qed.
